@@ -239,6 +239,8 @@ structure Skeleton where
   clFreeNeverWaits : Bool  -- the release function returned by registerClosure only locks, deletes, unlocks: no wait, channel operation or select
   clStoresCreatedClosure : Bool  -- what registerClosure puts into the table is createClosure's wrapper itself, not a further wrapper (mutex, WaitGroup, cache) around it
   clConvertsEveryArg : Bool  -- the wrapper converts every argument with convertValue; no fast path continues past it
+  rwJudgesFieldSignatureOnly : Bool  -- the remote-definition walk judges a function field by its own signature only and descends into struct-kinded fields only
+  hooksNeverWritten : Bool  -- the library only reads the hook structs it is handed
   ioWrappersNonBlocking : Bool  -- the context-checking wrappers LinkMessage puts around the transport functions never wait (every select has a default, no send, lock or wait): no window / semaphore couples independent calls
   errBranchesHandled         : Bool  -- every `if err != nil { … }` of the library reports the error with one of its OWN statements (setErr / panic / return of an error / handing `err` on / storing it) and then leaves
   locksBalanced              : Bool  -- every function body releases what it locks on every path (no return while holding, branches agree, loops neutral, or `defer Unlock`)
